@@ -1,5 +1,6 @@
 import Mathlib.Tactic.Ring
 import Mathlib.Algebra.Ring.Basic
+import Mathlib.Tactic.LinearCombination
 
 namespace NttSpike
 variable {R : Type} [CommRing R]
@@ -58,10 +59,20 @@ theorem roundtrip (w v : R) (hwv : w * v = 1) (k : Nat) (xs : List R) (h : xs.le
       · rename_i hlt
         simp [twm, tw] at hlt ⊢
         have : w ^ i * v ^ i = 1 := by rw [← mul_pow, hwv, one_pow]
-        trace_state
-        sorry
+        linear_combination (2 ^ k * (xs[i] - xs[2 ^ k + i])) * this
       · rename_i hge
         simp [twm, tw] at hge ⊢
-        trace_state
-        sorry
+        have hxl : xs.length - 2^k = 2^k := by omega
+        have hmin : min (2^k) (xs.length - 2^k) = 2^k := by rw [hxl]; simp
+        have hik : 2^k ≤ i := by
+          by_contra hc
+          have := hge (by omega)
+          omega
+        simp only [hmin]
+        have e : 2 ^ k + (i - 2 ^ k) = i := by omega
+        have : w ^ (i - 2^k) * v ^ (i - 2^k) = 1 := by rw [← mul_pow, hwv, one_pow]
+        simp only [e]
+        linear_combination (-(2 ^ k) * (xs[i - 2^k] - xs[i])) * this
+
 end NttSpike
+#print axioms NttSpike.roundtrip
